@@ -106,6 +106,7 @@ structure Config where
   maxSessions : Nat := 0
   maxChannels : Nat := 0
   banned : AMap String String := []
+  whitelistedOrigins : AMap String Bool := []
   deriving Repr, DecidableEq, Inhabited
 
 structure St where
